@@ -165,6 +165,7 @@ def space(thorough: bool) -> list[Any]:
 # ---- the two evaluators ----------------------------------------------------------------------------
 
 _SYMS: list = []
+_SAME: list = []  # four distinct vector symbols with one and the same display name
 _COMP: dict = {}
 _P = sp.Symbol("p", real=True)
 _Q = sp.Symbol("q", real=True)
@@ -178,12 +179,19 @@ def _setup() -> None:
         v = VectorSymbol(n)
         _SYMS.append(v)
         _COMP[v] = sp.symbols(f"{n}1:4", real=True)
+    for n in ROLES:
+        v = VectorSymbol("F")  # display names collide, the objects are distinct
+        _SAME.append(v)
+        _COMP[v] = sp.symbols(f"F{n}1:4", real=True)
+
+
+_POOL: list = []
 
 
 def ref_eval(t: Any, assign: tuple) -> Any:
     k = t[0]
     if k == "r":
-        return _COMP[_SYMS[assign[t[1]]]]
+        return _COMP[(_POOL or _SYMS)[assign[t[1]]]]
     if k == "zero":
         return (sp.S.Zero, ) * 3
     if k == "neg":
@@ -218,7 +226,7 @@ def build(t: Any, assign: tuple, evaluate: bool) -> Any:
     k = t[0]
     kw = {} if evaluate else {"evaluate": False}
     if k == "r":
-        return _SYMS[assign[t[1]]]
+        return (_POOL or _SYMS)[assign[t[1]]]
     if k == "zero":
         return sp.S.Zero
     if k == "neg":
@@ -345,9 +353,18 @@ def same(a: Any, b: Any) -> bool:
     return True
 
 
-def check_tree(t: Any) -> list[tuple[str, str, dict]]:
+def check_tree(t: Any, same_names: bool = False) -> list[tuple[str, str, dict]]:
     """all role assignments x construction modes for one tree"""
+    global _POOL
     _setup()
+    _POOL = _SAME if same_names else []
+    try:
+        return _check_tree(t, same_names)
+    finally:
+        _POOL = []
+
+
+def _check_tree(t: Any, same_names: bool) -> list[tuple[str, str, dict]]:
     k = nroles(t)
     out = []
     for assign in itertools.permutations(range(4), k) if k else [()]:
@@ -357,7 +374,7 @@ def check_tree(t: Any) -> list[tuple[str, str, dict]]:
             continue
         want = ref_eval(t, assign)
         for mode in ("auto", "doit"):
-            tag = f"{t}|{assign}|{mode}"
+            tag = f"{t}|{assign}|{mode}" + ("|same-display-names" if same_names else "")
             try:
                 with time_limit(20):
                     e = build(t, assign, evaluate=(mode == "auto"))
@@ -367,7 +384,7 @@ def check_tree(t: Any) -> list[tuple[str, str, dict]]:
                     ok = same(got, want)
             except CaseTimeout:
                 out.append((tag, "does not terminate within 20 s", {"tree": t, "assign": assign,
-                    "mode": mode}))
+                    "mode": mode, "same": same_names}))
                 continue
             except RecursionError:
                 out.append((tag, "RecursionError", {"tree": t, "assign": assign, "mode": mode}))
@@ -377,7 +394,7 @@ def check_tree(t: Any) -> list[tuple[str, str, dict]]:
                     "mode": mode}))
                 continue
             out.append((tag, "" if ok else f"value changed: library gives {short(e, 160)}",
-                {"tree": t, "assign": assign, "mode": mode}))
+                {"tree": t, "assign": assign, "mode": mode, "same": same_names}))
     return out
 
 
@@ -474,6 +491,8 @@ def _work(chunk: Any) -> dict:
         cases = []
         for t in chunk:
             cases.extend(check_tree(t))
+            if nroles(t) >= 2:
+                cases.extend(check_tree(t, same_names=True))
             res["keys"].append(repr(t))
     for tag, v, case in cases:
         res["n"] += 1
@@ -503,7 +522,8 @@ def main(run: Run) -> int:
     return run.finish(
         rule="all product-structure shapes with <= 3 product nodes x all role patterns (restricted "
         "growth strings, <= 4 roles) + every single decoration of a leaf; each tree x all k! role "
-        "assignments x {auto-evaluated, evaluate=False + doit()}; distinct = distinct trees (plus "
+        "assignments x {auto-evaluated, evaluate=False + doit()} x {distinct display names, one shared "
+        "display name}; distinct = distinct trees (plus "
         "derivative cases); evaluations = (tree, assignment, mode) triples",
         exhaustive=True,
         assumptions=["component expansion in R^3 with exact polynomial normal form; expressions with "
@@ -520,5 +540,5 @@ def replay(case: dict) -> list[str]:
         return tuple(tup(i) for i in x) if isinstance(x, list) else x
 
     t = tup(case["tree"])
-    return [f"{k}: {v}" for k, v, c in check_tree(t) if v and tuple(c["assign"]) == tuple(
-        case["assign"]) and c["mode"] == case["mode"]]
+    return [f"{k}: {v}" for k, v, c in check_tree(t, bool(case.get("same"))) if v and tuple(
+        c["assign"]) == tuple(case["assign"]) and c["mode"] == case["mode"]]
